@@ -1,4 +1,6 @@
 import Driver.C04
+import Driver.C01_Ext
+import Driver.C09X
 import Driver.C02Chan
 import Driver.C01_Term
 import Driver.C19W
@@ -34,6 +36,8 @@ partial def loop (h : IO.FS.Stream) (out : IO.FS.Stream) (f : String → String)
   loop h out f
 
 def modes : List (String × (String → String)) := [
+  ("c01x", C01X.handle),
+  ("c09x", C09X.handle),
   ("c02x", C02Chan.handle),
   ("c01t", C01T.handle),
   ("c19w", C19W.handle),
